@@ -14,7 +14,7 @@ TokSeqs ==
   { <<x>> : x \in Toks \ {UP} } \cup { <<x, y>> : x \in Toks, y \in Toks \ {UP} }
   \cup { <<x, y, z>> : x \in {A, L0, L1, UP}, y \in {A, B, UP}, z \in {A, B} }
   \cup (IF Rich THEN { <<x, y, UP, z>> : x \in {A, L0}, y \in {A, B}, z \in {A, B} } ELSE {})
-  \cup { <<K>>, <<A, K>> }
+  \cup { <<K>>, <<A, K>>, <<A, UP, K>>, <<A, B, UP, K>> }        \* a reserved name as the resolved final segment, also reached through '..' 
 \* paths that name something after resolution
 GoodSeqs == { s \in TokSeqs : Resolve(s) # <<>> }
 
